@@ -114,6 +114,11 @@ fn snap(kind: &str, text: &str) -> Result<Snap, String> {
     }
 }
 
+const REL_FIELDS: &[&str] = &[
+    "Build-Depends", "Build-Depends-Indep", "Build-Depends-Arch", "Build-Conflicts", "Build-Conflicts-Indep", "Build-Conflicts-Arch", "Depends", "Pre-Depends", "Recommends", "Suggests", "Enhances", "Breaks", "Conflicts",
+    "Replaces", "Provides", "Built-Using", "Installed-Build-Depends",
+];
+
 fn squash(s: &str) -> String {
     s.chars().filter(|c| !c.is_whitespace()).collect()
 }
@@ -148,7 +153,13 @@ fn break_structure(rng: &mut Rng, kind: &str, text: &str) -> Option<(String, Str
             Some(("no-source-paragraph".into(), rest.join("\n\n")))
         }
         1 if kind == "control" => Some(("two-source-paragraphs".into(), format!("{}\n\nSource: second\n", text.trim_end_matches('\n')) + "")),
-        2 if kind == "control" || kind == "copyright" => Some(("paragraph-of-neither-kind".into(), format!("{}\n\nX-Neither: here\n", text.trim_end_matches('\n')))),
+        2 if kind == "control" || kind == "copyright" => {
+            // a stray paragraph of varying length and content (error paths quote it)
+            let name = rng.s(&["X-Neither", "Comment", "Note", "Disclaimer"]).to_string();
+            let pad = "x".repeat(rng.below(70));
+            let tail = rng.s(&["here", "Jérôme Dupont and the Debian packaging team", "日本語のテキスト", "ĳ😀é", "a b c"]);
+            Some(("paragraph-of-neither-kind".into(), format!("{}\n\n{name}: {pad}{tail}\n", text.trim_end_matches('\n'))))
+        }
         _ => {
             if mandatory.is_empty() {
                 return None;
@@ -309,9 +320,14 @@ impl Scenario for C20 {
                 if std::env::var("DESKSET_DEBUG").is_ok() {
                     eprintln!("REJECTED {kind}: {e}");
                 }
-                // acceptance of every well-formed text is C03/C10's claim, not C20's: counted, no verdict
-                obs.count(&format!("reach.wellformed_rejected_{}", kind.replace('-', "_")));
-                return Ok(());
+                // what the lossy relation reader accepts is C10's claim (negated architectures, free layout): counted, no
+                // verdict. Any other rejection of a document generated from the field tables means the typed reader found
+                // no value where the property says it carries one (roles by distinguishing fields, continuation lines ...)
+                if e.starts_with("parsing field ") && REL_FIELDS.iter().any(|f| e.starts_with(&format!("parsing field {f}:"))) {
+                    obs.count(&format!("reach.wellformed_rejected_{}", kind.replace('-', "_")));
+                    return Ok(());
+                }
+                return Err(v("wellformed-rejected", &kind, "wellformed", format!("document {:?} generated from the field table is rejected: {}", c.text, e.trim())));
             }
         };
         let np = first.paras.len();
@@ -352,7 +368,7 @@ impl Scenario for C20 {
                         Some(r) => r,
                         None => return Err(v("lossless-agreement", &kind, "field-invented", format!("typed value carries {name}={val:?} but the text {:?} has no such field", c.text))),
                     };
-                    let rel_field = matches!(name.as_str(), "Build-Depends" | "Build-Depends-Indep" | "Build-Depends-Arch" | "Build-Conflicts" | "Build-Conflicts-Indep" | "Build-Conflicts-Arch" | "Depends" | "Pre-Depends" | "Recommends" | "Suggests" | "Enhances" | "Breaks" | "Conflicts" | "Replaces" | "Provides" | "Built-Using" | "Installed-Build-Depends");
+                    let rel_field = REL_FIELDS.contains(&name.as_str());
                     if rel_field {
                         // compare the dependency structure, read by the reference relation reader
                         if let (Some(a), Some(b)) = (crate::model::relations::parse_field(&raw, false), crate::model::relations::parse_field(val, false)) {
